@@ -63,7 +63,7 @@ theorem C16_slots_genpos {g : GGrid} {eps : Rat} {a b : Pt} (H : GenPos g eps a 
     intro hh
     rw [hh.2] at this
     exact lt_irrefl _ this
-  have e' := e ((((cellOf g b).1 : Int) - ((cellOf g a).1 : Int)) ≠ 0 ∧ (((cellOf g b).2 : Int) - ((cellOf g a).2 : Int)) ≠ 0)
+  have e' := e ((((gridCellOf g b).1 : Int) - ((gridCellOf g a).1 : Int)) ≠ 0 ∧ (((gridCellOf g b).2 : Int) - ((gridCellOf g a).2 : Int)) ≠ 0)
   simp only [and_assoc] at e'
   rw [e', List.length_map, h3, Nat.sub_self]
   simp
